@@ -46,6 +46,30 @@ CHECKS = {
         "one physical line and parse back to the identical constants and f-string structure.",
         "Trusts the host parser (3.12, PEP 701) for building input trees; values compared by type and repr.",
         "DESIGN.md section 3, C04"),
+    "C10": (
+        "Hypothesis rule-based state machine over API histories with a dict model of the option "
+        "objects; differential oracle against the same call in a fresh process",
+        "Histories of {create options object, set legal/illegal value, convert with object j, "
+        "convert with no options, convert a half-way rejected program, reseed random, drop, read "
+        "back} are drawn and shrunk by Hypothesis' stateful engine; every conversion result, "
+        "normalised by first-occurrence renaming of __ol_ names, must equal the result of the "
+        "same call in a fresh interpreter process with the modelled options (8 configurations x "
+        "~50 pool programs of references, recomputed on every run).",
+        "Assumes two fresh processes differ only in random suffixes (re-checked on a ninth of the "
+        "references each run). Histories are bounded (10 / 16 steps).",
+        "DESIGN.md section 3, C10"),
+    "C16": (
+        "Hypothesis-generated argv / file / output-mode cases plus a fixed invalid-option matrix, "
+        "each one real `python -m oneliner` process; model of -C parsing; API differential + "
+        "evaluation oracle; output-path-untouched oracle for invalid lists",
+        "Every case runs the real command line on a scratch file. Valid option lists (both -C "
+        "spellings, repeats, deprecated --unparser, LF/CRLF, non-ASCII) must exit 0 and write "
+        "exactly the UTF-8 bytes of the library result under the modelled options (stdout: plus "
+        "newline), and the text must print what the script prints. Invalid lists (unknown names "
+        "incl. real attribute names, malformed items, illegal values; alone or after valid items) "
+        "must exit non-zero leaving the output path absent / byte-identical.",
+        "Trusts the in-process library call as the reference (its purity is C10's subject).",
+        "DESIGN.md section 3, C16"),
 }
 
 NOT_YET = "check not built yet in this round; planned engine described in DESIGN.md section 3"
